@@ -157,6 +157,9 @@ func c15Run(c *ev.Ctx, r *rand.Rand, caseN int) {
 			},
 		},
 		HighestLamport: func() idx.Lamport {
+			if midStop {
+				time.Sleep(delay() / 2) // widens the window in which Stop() can arrive while a batch is being inserted
+			}
 			mu.Lock()
 			defer mu.Unlock()
 			if highest > hMaxReturned {
@@ -300,6 +303,25 @@ func c15Run(c *ev.Ctx, r *rand.Rand, caseN int) {
 				m := desc()
 				m["event"], m["lamport"], m["highest_known"] = l.c.Name, l.c.Lamport(), l.h
 				c.Violation("far-future-event-processed", m)
+				return
+			}
+		}
+	}
+	// after Stop() returned no internal goroutine runs any more and the buffer was cleared: every copy that
+	// reached the ordering buffer (its id was looked up by Exists; ids shared by several copies are left out)
+	// must have been released exactly once, finished batch or not
+	reached := map[hash.Event]bool{}
+	for _, l := range logs {
+		if l.kind == "exists" {
+			reached[l.id] = true
+		}
+	}
+	for _, b := range batches {
+		for _, cp := range b.copies {
+			if idCount[cp.ID()] == 1 && reached[cp.ID()] && rel[cp] != 1 {
+				m := desc()
+				m["event"], m["batch"], m["released_times"], m["batch_done_state"] = cp.Name, cp.batch, rel[cp], atomic.LoadInt32(&b.done)
+				c.Violation("copy-that-reached-the-buffer-not-released-after-stop", m)
 				return
 			}
 		}
